@@ -195,6 +195,21 @@ pub fn interps_both(s: &[String]) -> Vec<Vec<String>> {
 
 pub const QUIRK_SIG: &str = "symbolic-push-ignores-empty-segment-on-empty-path";
 
+/// The public `unsafe iri::PathMut::new` route (IRI family only: `uri::PathMut` has no such constructor).
+pub fn raw_route(fam: Fam, raw: &mut Vec<u8>, start: usize, end: usize, ops: &[POp]) -> Option<Result<String, crate::engine::PanicInfo>> {
+	match fam {
+		Fam::Uri => None,
+		Fam::Iri => Some(guard(|| {
+			let mut h = unsafe { iref::iri::PathMut::new(raw, start, end) };
+			for op in ops.iter() {
+				i::apply(&mut h, op)
+			}
+			(*h).as_str().to_string()
+		})),
+	}
+}
+
+
 both_families! {
 	pub fn seg_valid(s: &str) -> bool { Segment::new(s).is_ok() }
 
@@ -377,6 +392,25 @@ both_families! {
 			let c2 = split(&fin2);
 			ensure!(same_lists(&c1.path, &c2.path) && c2.scheme == c0.scheme && c2.authority == c0.authority && c2.query == c0.query && c2.fragment == c0.fragment,
 				"handle-reuse-differs", "{ctx}: ops {:?} through one handle give {:?}, through a fresh handle per op {:?}", $ops, fin, fin2);
+			// the public `unsafe iri::PathMut::new(buffer, start, end)` route (the URI family has no such constructor) on a plain Vec<u8> holding the same text:
+			// the range is the path of a valid reference, so the safety contract holds and the effect must be the same
+			{
+				let start = c0.scheme.as_ref().map(|x| x.len() + 1).unwrap_or(0) + c0.authority.as_ref().map(|x| x.len() + 2).unwrap_or(0);
+				let end = start + c0.path.len();
+				let mut raw: Vec<u8> = text.as_bytes().to_vec();
+				let r = raw_route(FAM, &mut raw, start, end, $ops);
+				match r {
+					None => {}
+					Some(Err(p)) => fail!(format!("panic-raw-route:{}", p.loc), "{ctx}: ops {:?} through `unsafe PathMut::new(vec, {start}, {end})` panicked at {}: {}", $ops, p.loc, p.msg),
+					Some(Ok(view)) => {
+						let t = String::from_utf8_lossy(&raw).to_string();
+						ensure!(std::str::from_utf8(&raw).is_ok() && <$Buf>::new(t.as_str().into()).is_ok(), "raw-route-invalid", "{ctx}: ops {:?} through `unsafe PathMut::new(vec, {start}, {end})` leave {:?}, which does not re-parse", $ops, t);
+						let c3 = split(&t);
+						ensure!(same_lists(&c1.path, &c3.path) && same_lists(&c1.path, &view) && c3.scheme == c0.scheme && c3.authority == c0.authority && c3.query == c0.query && c3.fragment == c0.fragment,
+							"raw-route-differs", "{ctx}: ops {:?} through path_mut() give {:?}, through `unsafe PathMut::new(vec, {start}, {end})` {:?} (handle view {:?})", $ops, fin, t, view);
+					}
+				}
+			}
 			// the same vector on a stand-alone buffer holding the same path text: same segment list
 			// (skipped when the embedded path is the empty path after an authority, which becomes absolute)
 			if !after_authority || c0.path.starts_with('/') {
